@@ -67,6 +67,31 @@ pub fn gen_op(cx: &Cx, t: SignType, max_pages: u64) -> Op {
     }
 }
 
+/// `send_pages` takes any `IntoIterator` whose iterator is `Clone`. Which kind of iterator the
+/// page list is handed over as is a deterministic function of the list itself (so that plans made
+/// ahead of time and twins agree): a slice iterator, or one of several lazy adaptors whose
+/// `size_hint` lower bound is 0 although they yield every page.
+fn iter_kind(pages: &[Page<'static>]) -> usize {
+    (pages.len() + pages.first().map(|p| usize::from(p.id().0)).unwrap_or(0)) % 5
+}
+
+/// Like `apply`, but `probe` is called every time the page list is advanced (a caller's lazy page
+/// source may look at anything, including the bus the sign is on).
+pub fn apply_probed(sign: &Sign, op: &Op, probe: &dyn Fn()) -> Outcome {
+    match op {
+        Op::SendPages(p) => {
+            let r = sign.send_pages(p.iter().inspect(|_| probe()));
+            match r {
+                Ok(s) => Outcome::OkStyle(s == PageFlipStyle::Automatic),
+                Err(SignError::UnexpectedResponse { .. }) => Outcome::UnexpectedResponse,
+                Err(SignError::Bus { .. }) => Outcome::Bus,
+                Err(_) => Outcome::Other,
+            }
+        }
+        other => apply(sign, other),
+    }
+}
+
 pub fn apply(sign: &Sign, op: &Op) -> Outcome {
     fn cls<T>(r: Result<T, SignError>, ok: impl FnOnce(T) -> Outcome) -> Outcome {
         match r {
@@ -79,7 +104,16 @@ pub fn apply(sign: &Sign, op: &Op) -> Outcome {
     match op {
         Op::Configure => cls(sign.configure(), |_| Outcome::Ok),
         Op::ConfigureIfNeeded => cls(sign.configure_if_needed(), |_| Outcome::Ok),
-        Op::SendPages(p) => cls(sign.send_pages(p.iter()), |s| Outcome::OkStyle(s == PageFlipStyle::Automatic)),
+        Op::SendPages(p) => {
+            let style = |s| Outcome::OkStyle(s == PageFlipStyle::Automatic);
+            match iter_kind(p) {
+                0 => cls(sign.send_pages(p.iter()), style),
+                1 => cls(sign.send_pages(p.iter().filter(|_| true)), style),
+                2 => cls(sign.send_pages(p.iter().collect::<Vec<&Page<'static>>>()), style),
+                3 => cls(sign.send_pages(p.iter().skip_while(|_| false)), style),
+                _ => cls(sign.send_pages(p.iter().chain(std::iter::empty())), style),
+            }
+        }
         Op::Show => cls(sign.show_loaded_page(), |_| Outcome::Ok),
         Op::LoadNext => cls(sign.load_next_page(), |_| Outcome::Ok),
         Op::ShutDown => cls(sign.shut_down(), |_| Outcome::Ok),
